@@ -28,7 +28,11 @@ impl RangeInto for MyRange {
             },
             end: Position {
                 line: self.end().zero_idx_line().try_into().unwrap_or(0),
-                character: self.end().zero_idx_column().try_into().unwrap_or(0),
+                // our ranges end on their last character, the editor's end
+                // just after it
+                character: (self.end().zero_idx_column() + 1)
+                    .try_into()
+                    .unwrap_or(0),
             },
         }
     }
